@@ -276,7 +276,17 @@ def _recorded_zero_oracle(ctx: Ctx):
         ctx.count("recorded-zero", shift)
 
 
+def _part_specs(ctx: Ctx):
+    """the spec attached to EACH part of a structured result replays that part on its own, also on rows in which a level does not occur
+    (the factor may have been encoded for an earlier part first)"""
+    from . import c07
+    rng = ctx.fork("part-specs")
+    for _ in range(ctx.n(60, 800)):
+        c07._coded_parts(ctx, rng)
+
+
 def run(ctx: Ctx):
+    _part_specs(ctx)
     _model_stream(ctx)
     _transform_oracle(ctx)
     _recorded_zero_oracle(ctx)
